@@ -25,7 +25,7 @@ from qupulse.utils.performance import is_monotonic
 from qupulse.expressions import ExpressionScalar
 from qupulse.pulses.interpolation import InterpolationStrategy
 from qupulse.utils import checked_int_cast, isclose
-from qupulse.utils.types import TimeType, time_from_float
+from qupulse.utils.types import TimeType, time_from_float, frozendict
 from qupulse.program.transformation import Transformation
 from qupulse.utils import pairwise
 
@@ -1192,7 +1192,7 @@ class FunctorWaveform(Waveform):
     def __init__(self, inner_waveform: Waveform, functor: Mapping[ChannelID, Functor]):
         super(FunctorWaveform, self).__init__(duration=inner_waveform.duration)
         self._inner_waveform = inner_waveform
-        self._functor = dict(functor.items())
+        self._functor = frozendict(functor.items())
 
         assert set(functor.keys()) == inner_waveform.defined_channels, ("There is no default identity mapping (yet)."
                                                                         "File an issue on github if you need it.")
